@@ -224,10 +224,10 @@ def build(recipe):
         ctx = recipe["ctx"]
         if ctx in DECL_CONTEXTS:
             ds = [dtor(f"x{i}", build_derivs(s)) for i, s in enumerate(seqs)]
-            m = tu(_decl_ctx(ctx)(ds))
+            m = tu(gens.prelude() + _decl_ctx(ctx)(ds))
         else:
             ds = [dtor(None, build_derivs(s)) for s in seqs]
-            m = tu(_tn_ctx(ctx)(ds))
+            m = tu(gens.prelude() + _tn_ctx(ctx)(ds))
     elif k == "rdecls":
         items = gens.prelude()
         for _ in range(recipe["count"]):
